@@ -1,5 +1,6 @@
 import VaxisModel.Lemmas.Startup
 import VaxisModel.Lemmas.StartupLive
+import VaxisModel.Model.StartupGen
 import VaxisModel.Gen.Startup
 
 /-!
@@ -288,6 +289,27 @@ theorem facts_loop :
     Gen.Startup.loopLabel = "outer" ∧ Gen.Startup.beforeLoop = "vx.sendQueries()" ∧
     Gen.Startup.loopSelect = [("<-ctx.Done()", ["log", "break outer"]), ("ev := <-vx.queue", ["switch ev := ev.(type)"])] := by
   decide +kernel
+
+/-- Every field name and statement in the regenerated table of the loop's type switch is one the
+interpreter `Model.StartupGen.collectEvWith` executes (nothing degrades to "unknown"). -/
+theorem loop_table_recognised : VaxisModel.Model.StartupGen.recognised Gen.Caps.collect = true := by decide +kernel
+
+/-- **The loop's type switch is interpreted from the source**: for every option set, capability
+record, stored identifiers and event, the transition the start-up LTS takes (`collectEv`, over which
+`caps_exact` is proved) is the result of *executing the regenerated table* `Gen.Caps.collect`
+(look the event type up; `break outer`; the `DisableKittyKeyboard` guard; set the listed fields;
+store the payload). A change of an arm in vaxis.go changes `collectEvGen` and this theorem stops
+checking. -/
+theorem loop_interpreted (o : Opts) (c : Caps) (tid aid : List Nat) (e : Event) :
+    VaxisModel.Model.StartupGen.collectEvGen o c tid aid e = collectEv o c tid aid e := by
+  open VaxisModel.Model.StartupGen in
+  cases e with
+  | internal i =>
+    cases i <;> cases hk : o.disableKitty <;>
+      simp [collectEvGen, collectEvWith, typeName, Internal.name, Gen.Caps.collect, collectEv, collect, setField, payload, hk]
+  | appID s => simp [collectEvGen, collectEvWith, typeName, Gen.Caps.collect, collectEv, setField, payload]
+  | terminalID s => simp [collectEvGen, collectEvWith, typeName, Gen.Caps.collect, collectEv, setField, payload]
+  | _ => simp [collectEvGen, collectEvWith, typeName, collectEv]
 
 /-- After the loop `New` runs `enterAltScreen`, `enableModes`, `setupSignals`, `applyQuirks` — in
 this order, nothing else before `applyQuirks`. -/
